@@ -1,5 +1,5 @@
 SPECIFICATION Spec
-CONSTANT TypedDispatch = TRUE
+CONSTANTS TypedDispatch = TRUE NavWritesBack = {"userString"}
 INVARIANTS NoPanic ReadBack UnknownRejected WrongKindRejected KindsStable NothingCreated
-PROPERTIES ErrChangesNothing OthersUntouched PersistsAcrossSetMathML
+PROPERTIES ErrChangesNothing OthersUntouched PersistsAcrossSetMathML NavigationTouchesOnlyItsOwn
 CHECK_DEADLOCK FALSE
